@@ -1,8 +1,6 @@
 <%!
     from floogen.model.routing import XYDirections, RouteAlgo
-%>\
-<% def camelcase(s):
-  return ''.join(x.capitalize() or '_' for x in s.split('_'))
+    from floogen.utils import snake_to_camel as camelcase
 %>\
 <% offset_xy_id = router.id - network.routing.xy_id_offset if network.routing.xy_id_offset is not None else router.id %>\
 <% req_type = next(d for d in router.incoming if d is not None).req_type %>\
